@@ -39,6 +39,14 @@ def templates(cfg):
         T(f"{how}.filter_right_null", lambda p, t, u, how=how: t >> p.join(u >> p.filter(u.x.is_null()), t.a == u.a, how))
         T(f"{how}.filter_both", lambda p, t, u, how=how: t >> p.filter(t.b != 1) >> p.join(u >> p.filter(u.x != 2), t.a == u.a, how))
         T(f"{how}.right_alias_filter", lambda p, t, u, how=how: t >> p.join(u >> p.filter(u.x > 0) >> p.alias("w"), p.C.b == p.C.x, how))
+    # constant columns on either side: on SQL the constant must not be inlined above an outer join
+    T("const.left_join_right_const_alias", lambda p, t, u: t >> p.left_join(u >> p.mutate(k=1) >> p.alias("w"), t.a == p.C.x))
+    T("const.left_join_right_const", lambda p, t, u: t >> p.left_join(u >> p.mutate(k=1), t.a == u.a))
+    T("const.left_join_left_const", lambda p, t, u: t >> p.mutate(k=1) >> p.left_join(u, t.a == u.a))
+    T("const.inner_join_right_const", lambda p, t, u: t >> p.inner_join(u >> p.mutate(k=1), t.a == u.a))
+    T("const.full_join_right_const_alias", lambda p, t, u: t >> p.full_join(u >> p.mutate(k=7) >> p.alias("w"), t.a == p.C.x))
+    T("const.full_join_left_const", lambda p, t, u: t >> p.mutate(k=7) >> p.full_join(u, t.a == u.a))
+    T("const.left_join_right_const_expr", lambda p, t, u: t >> p.left_join(u >> p.mutate(k=p.lit(2) + 3), t.a == u.a) >> p.mutate(z=p.C.k + 1))
     T("cross", lambda p, t, u: t >> p.cross_join(u))
     T("cross_disjoint", lambda p, t, u: t >> p.cross_join(u), TU_DISJ)
     T("cross_then_filter", lambda p, t, u: t >> p.cross_join(u) >> p.filter(t.a == u.a))
